@@ -242,7 +242,10 @@ fn alpha_eq_inner(a: &Ty, b: &Ty, bij: &mut Option<Bij>) -> bool {
                 && ga.iter().zip(gb).all(|(x, y)| match (x, y) {
                     (Arg::Ty(x), Arg::Ty(y)) => alpha_eq_inner(x, y, bij),
                     (Arg::Lt(_), Arg::Lt(_)) => true,
-                    (Arg::Const(x), Arg::Const(y)) => x == y,
+                    // two spellings of one integer (`4` / `4usize` / `4_usize`) denote the same value: the model calls
+                    // them equal, so L4 never objects to a notion of equivalence that sees through the spelling, while
+                    // L5 (equal canonical forms => equivalent) still binds the two functions to each other
+                    (Arg::Const(x), Arg::Const(y)) => x == y || (const_value(x).is_some() && const_value(x) == const_value(y)),
                     _ => false,
                 })
         }
@@ -601,6 +604,14 @@ fn law_single(t: &Ty, info: &mut CaseInfo) -> Result<(), Fail> {
     Ok(())
 }
 
+/// The integer a const generic argument denotes, whatever its spelling (type suffix, `_` separators).
+fn const_value(c: &str) -> Option<u128> {
+    let digits: String = c.chars().take_while(|ch| ch.is_ascii_digit() || *ch == '_').filter(|ch| *ch != '_').collect();
+    let rest = &c[c.chars().take_while(|ch| ch.is_ascii_digit() || *ch == '_').count()..];
+    let suffix_ok = rest.is_empty() || ["usize", "u8", "u16", "u32", "u64", "u128", "isize", "i8", "i16", "i32", "i64", "i128"].contains(&rest);
+    if digits.is_empty() || !suffix_ok { None } else { digits.parse().ok() }
+}
+
 fn has_generic(t: &Ty) -> bool {
     match t {
         Ty::Gen(_) => true,
@@ -804,7 +815,7 @@ pub fn ty_strategy(generics: bool) -> BoxedStrategy<Ty> {
             let arg = prop_oneof![
                 5 => inner.clone().prop_map(Arg::Ty),
                 2 => glt_strategy().prop_map(Arg::Lt),
-                1 => (0u8..5).prop_map(|i| Arg::Const(["0", "8", "255", "true", "'x'"][i as usize].to_string())),
+                1 => (0u8..8).prop_map(|i| Arg::Const(["0", "8", "255", "true", "'x'", "8usize", "0u8", "4"][i as usize].to_string())),
             ];
             prop_oneof![
                 4 => (0u8..6, any::<bool>(), prop::collection::vec(arg, 1..=3))
@@ -938,6 +949,20 @@ fn mutate(t: &Ty, target: &mut isize, kind: u8) -> Ty {
     *target -= 1;
     if here {
         return match t {
+            Ty::Path { alias, path, args } if kind >= 200 && args.iter().any(|a| matches!(a, Arg::Const(c) if const_value(c).is_some())) => {
+                // respell an integer const argument (same value, other spelling)
+                let mut a = args.clone();
+                for x in a.iter_mut() {
+                    if let Arg::Const(c) = x {
+                        if const_value(c).is_some() {
+                            let bare: String = c.chars().take_while(|ch| ch.is_ascii_digit()).collect();
+                            *c = if *c != bare { bare } else { format!("{bare}{}", ["usize", "u8", "_usize", "u32"][(kind % 4) as usize]) };
+                            break;
+                        }
+                    }
+                }
+                Ty::Path { alias: *alias, path: *path, args: a }
+            }
             Ty::Path { alias, path, args } => match kind % 5 {
                 0 => Ty::Path { alias: *alias, path: (*path + 1) % PATHS.len() as u8, args: args.clone() },
                 1 => Ty::Path { alias: !*alias, path: *path, args: args.clone() },
@@ -1056,6 +1081,63 @@ fn mutate_at(t: &Ty, raw: u16, kind: u8) -> Ty {
     mutate(t, &mut target, kind)
 }
 
+/// Like `subst`, but every *occurrence* of a generic parameter is replaced on its own: by the binding, or (when the next
+/// bit of `choices` is set) by a copy of the binding whose own generic parameters are renamed. Two occurrences of one
+/// template parameter then stand against types that are equal up to parameter names but not equal.
+fn subst_occ(t: &Ty, b: &BTreeMap<String, Ty>, choices: &mut u64) -> Ty {
+    match t {
+        Ty::Gen(n) => match b.get(n) {
+            Some(v) => {
+                let bit = *choices & 1 == 1;
+                let perm = ((*choices >> 1) & 3) as u8;
+                *choices = choices.rotate_right(3);
+                if bit { rename_generics(v, perm) } else { v.clone() }
+            }
+            None => t.clone(),
+        },
+        Ty::Path { alias, path, args } => Ty::Path {
+            alias: *alias,
+            path: *path,
+            args: args
+                .iter()
+                .map(|a| match a {
+                    Arg::Ty(t) => Arg::Ty(subst_occ(t, b, choices)),
+                    o => o.clone(),
+                })
+                .collect(),
+        },
+        Ty::Ref { m, lt, inner } => Ty::Ref { m: *m, lt: lt.clone(), inner: Box::new(subst_occ(inner, b, choices)) },
+        Ty::Tuple(e) => Ty::Tuple(e.iter().map(|t| subst_occ(t, b, choices)).collect()),
+        Ty::Slice(e) => Ty::Slice(Box::new(subst_occ(e, b, choices))),
+        Ty::Array(e, n) => Ty::Array(Box::new(subst_occ(e, b, choices)), *n),
+        Ty::Ptr { m, inner } => Ty::Ptr { m: *m, inner: Box::new(subst_occ(inner, b, choices)) },
+        Ty::Fn { inputs, output, abi, unsafe_ } => Ty::Fn {
+            inputs: inputs.iter().map(|(n, t)| (n.clone(), subst_occ(t, b, choices))).collect(),
+            output: output.as_ref().map(|o| Box::new(subst_occ(o, b, choices))),
+            abi: *abi,
+            unsafe_: *unsafe_,
+        },
+        Ty::Scalar(_) => t.clone(),
+    }
+}
+
+/// A template in which one parameter occurs at least twice: `(T, P<T>)`, `P<T, T>`, `fn(T) -> T`, ...
+fn repeated_param_template() -> BoxedStrategy<Ty> {
+    (ty_strategy(true), any::<u8>(), any::<u8>())
+        .prop_map(|(t, shape, p)| {
+            let g = || Ty::Gen("T".into());
+            let path = p % PATHS.len() as u8;
+            match shape % 5 {
+                0 => Ty::Path { alias: false, path, args: vec![Arg::Ty(g()), Arg::Ty(g())] },
+                1 => Ty::Tuple(vec![g(), t, g()]),
+                2 => Ty::Path { alias: false, path, args: vec![Arg::Ty(Ty::Tuple(vec![g(), g()])), Arg::Ty(t)] },
+                3 => Ty::Fn { inputs: vec![(None, g()), (None, t)], output: Some(Box::new(g())), abi: 0, unsafe_: false },
+                _ => Ty::Tuple(vec![Ty::Ref { m: false, lt: Lt::Elided, inner: Box::new(g()) }, Ty::Slice(Box::new(g())), t]),
+            }
+        })
+        .boxed()
+}
+
 fn rename_generics(t: &Ty, perm: u8) -> Ty {
     // a bijection on {T,U,V} -> fresh names, chosen by `perm`
     let targets: [[&str; 3]; 4] = [["X", "Y", "Z"], ["U", "V", "T"], ["T", "U", "V"], ["V", "T", "U"]];
@@ -1104,6 +1186,20 @@ pub fn case_strategy() -> BoxedStrategy<Case> {
             Case::Pair(t, u)
         });
     let independent = (ty_strategy(true), ty_strategy(true)).prop_map(|(a, b)| Case::Pair(a, b));
+    // a parameter that occurs several times, bound occurrence by occurrence to types that carry generic parameters of
+    // their own: all occurrences alike (a template match) or alike only up to the names of those parameters (no match)
+    let split = (
+        prop_oneof![repeated_param_template(), ty_strategy(true)],
+        prop::collection::vec(ty_strategy(true), 3),
+        any::<u64>(),
+        any::<bool>(),
+    )
+        .prop_map(|(tpl, binds, choices, all_alike)| {
+            let b: BTreeMap<String, Ty> = ["T", "U", "V"].iter().zip(binds).map(|(k, v)| (k.to_string(), v)).collect();
+            let mut ch = if all_alike { 0 } else { choices | 8 };
+            let c = subst_occ(&tpl, &b, &mut ch);
+            Case::Pair(tpl, c)
+        });
     let triple = (
         ty_strategy(true),
         any::<u8>(),
@@ -1120,7 +1216,7 @@ pub fn case_strategy() -> BoxedStrategy<Case> {
             }
             Case::Triple(t, b, c)
         });
-    prop_oneof![4 => instantiation, 3 => renamed, 1 => independent, 2 => triple].boxed()
+    prop_oneof![4 => instantiation, 3 => renamed, 1 => independent, 2 => triple, 2 => split].boxed()
 }
 
 // ------------------------------------------------------------------------------------------
@@ -1185,7 +1281,7 @@ fn dec_ty(c: &mut Cur, generics: bool, depth: usize) -> Ty {
                 .map(|_| match c.b() % 8 {
                     0..=4 => Arg::Ty(dec_ty(c, generics, depth - 1)),
                     5 | 6 => Arg::Lt(dec_lt(c, false)),
-                    _ => Arg::Const(["0", "8", "255", "true", "'x'"][c.b() as usize % 5].to_string()),
+                    _ => Arg::Const(["0", "8", "255", "true", "'x'", "8usize", "0u8", "4"][c.b() as usize % 8].to_string()),
                 })
                 .collect();
             Ty::Path { alias: k & 0x80 != 0 && p % 2 == 0, path: p, args }
@@ -1219,7 +1315,7 @@ fn dec_ty(c: &mut Cur, generics: bool, depth: usize) -> Ty {
 /// Decode a case from raw bytes (every byte string decodes to some case).
 pub fn case_from_bytes(data: &[u8]) -> Case {
     let mut c = Cur { d: data, i: 0 };
-    let class = c.b() % 10;
+    let class = c.b() % 12;
     let mutn = |c: &mut Cur| if c.b() % 2 == 0 { Some((c.u16(), c.b())) } else { None };
     match class {
         0..=3 => {
@@ -1245,6 +1341,20 @@ pub fn case_from_bytes(data: &[u8]) -> Case {
             Case::Pair(t, u)
         }
         7 => Case::Pair(dec_ty(&mut c, true, 4), dec_ty(&mut c, true, 4)),
+        10 | 11 => {
+            // occurrence-wise instantiation (see `case_strategy`, class `split`)
+            let extra = dec_ty(&mut c, true, 3);
+            let g = || Ty::Gen("T".into());
+            let tpl = match c.b() % 4 {
+                0 => Ty::Path { alias: false, path: c.b() % 6, args: vec![Arg::Ty(g()), Arg::Ty(g())] },
+                1 => Ty::Tuple(vec![g(), extra, g()]),
+                2 => Ty::Fn { inputs: vec![(None, g()), (None, extra)], output: Some(Box::new(g())), abi: 0, unsafe_: false },
+                _ => extra,
+            };
+            let b: BTreeMap<String, Ty> = ["T", "U", "V"].iter().map(|k| (k.to_string(), dec_ty(&mut c, true, 3))).collect();
+            let mut ch = (c.u32() as u64) << 32 | c.u32() as u64;
+            Case::Pair(tpl.clone(), subst_occ(&tpl, &b, &mut ch))
+        }
         _ => {
             let t = dec_ty(&mut c, true, 4);
             let mut s = c.u32();
